@@ -21,12 +21,15 @@ ASSUMPTIONS = [
 ]
 
 ALPHA = ["a", "b", " ", "\t", "\n", "\xa0"]
-WIDE = ALPHA + ["\r", "\u2003", "\u200b", "\u00e9"]
+WIDE = ALPHA + ["\r", "\u2003", "\u200b", "\u00e9",
+                # characters with a compatibility decomposition (a Unicode normalisation would rewrite them, one into "<")
+                "\u00b2", "\ufb01", "\u00b4", "\uff1c", "\u2460"]
 PROTECTED = ("markup", "literalLayout", "objectName", "attributeName", "para")
 NAMES = ["r", "q", "para", "literalLayout", "markup", "objectName", "attributeName"]
 VALUES = ["x", " x ", "x  y", "x\n\ty", "\xa0x\xa0", "x\xa0\xa0y", "   ", "\n  ", "\xa0", " \xa0\n", "a b\tc\n d",
           # source text with escaped markup characters (values are written into the document verbatim)
-          "a &lt; b  &amp; c", "&amp;lt;b&amp;gt;", "&gt;\xa0&quot;\xa0\xa0&apos;"]
+          "a &lt; b  &amp; c", "&amp;lt;b&amp;gt;", "&gt;\xa0&quot;\xa0\xa0&apos;",
+          "m\u00b2 \ufb01eld\xa0\uff1c \u00b4 \u2460"]
 XSI = "http://www.w3.org/2001/XMLSchema-instance"
 
 
@@ -149,6 +152,9 @@ def compare(src, out, path, diffs):
         raw = None if s_txt is None else s_txt.replace("\xa0", " ")
         if holder is not None and protected_ancestor(holder):
             exp = raw
+            if exp is not None and exp != "" and o_txt != exp:
+                bad(which, exp, o_txt)          # protected text is preserved exactly, also when it is only white space
+                continue
         else:
             exp = None if raw is None else xmlinfo.normalize_space(raw)
         if not text_matches(exp, o_txt):
